@@ -397,6 +397,12 @@ def xmlRead (s : Str) : Except RErr Elem := do
   let st ← run RSt.init body
   finish st
 
+/-- outcome class of the reader (`none` = accepted) -/
+def readStatus (s : Str) : Option RErr :=
+  match xmlRead s with
+  | .ok _ => none
+  | .error e => some e
+
 /-- "the document is well-formed" as far as the model can express it -/
 def WellFormed (s : Str) : Prop := ∃ e, xmlRead s = .ok e
 
